@@ -29,6 +29,16 @@ Sub-checks (names usable with --only):
               long monotone permutation, also obtained along other routes; mesh-type patterns
               over them; adjacency sets with values >= 8 / >= 32 in several input forms; all
               pair laws, sorted()/min()/max() against (length, entries), Basis canonical form
+  fresh       FRESH: objects are built from mutable containers (shading list/set/dict, entry
+              list, adjacency lists/sets) which are edited afterwards, and the mutable containers
+              an object hands out (get_adjacent_requirements lists, sorted(shading), list(basis),
+              any exposed mutable attribute) are edited; then ==, hash, lookup, order against a
+              freshly built equal object and the handed-out data are checked again
+  abort       ABORT: a BaseException is raised at the k-th call event (every k) inside every
+              hash / == / < / <= / > / >= of a 14-object family, sorted / min / max / set / dict
+              / list.sort of its families and Basis / MeshBasis construction; every injection in
+              its own forked process; afterwards all pair laws must hold on the same objects and
+              against fresh ones
   perm_order  all ordered pairs of S<=5 (thorough S<=6): the six operators against (length,
               entries); sorted() of S<=n from rotated/reversed orders
   history     BFS over histories of {hash x_i, use x_i, retain an object of some size class,
@@ -1365,6 +1375,383 @@ def shard_scale_sorted(shard):
 
 
 # --------------------------------------------------------------------------------------------
+# FRESH: containers handed in or out are damaged in place, then everything is asked again
+# --------------------------------------------------------------------------------------------
+
+def _damage(c):
+    """Edit a mutable container in place (every way that applies)."""
+    if isinstance(c, list):
+        c.reverse()
+        c.append((0, 0) if (c and isinstance(c[0], tuple)) else 0)
+        del c[:1]
+    elif isinstance(c, set):
+        c.add((0, 0))
+        c.add(0)
+        if len(c) > 2:
+            c.pop()
+    elif isinstance(c, dict):
+        c.clear()
+    elif isinstance(c, bytearray):
+        c.reverse()
+
+
+def _stable(part, what, desc, x, twin_mk, h0, extra=None):
+    """After a damage step: x still equals a freshly built equal object, hashes as before and
+    as the fresh object, is found through it, and is not ordered before/after it."""
+    L = lib()
+    case = {"what": what, "value": desc}
+    if extra:
+        case.update(extra)
+    try:
+        y = twin_mk()
+        ok = (x == y) and (y == x) and hash(x) == h0 and hash(y) == h0 and (x in {y}) and \
+            ({y: 1}.get(x) == 1)
+        if ok and isinstance(x, (L.Perm, L.MeshPatt)):
+            ok = (not x < y) and (x <= y) and (not x > y) and (x >= y)
+        if not ok:
+            part.violation("fresh", case, {"x": repr(x), "fresh_equal_object": repr(y),
+                                           "x==y": x == y, "hash_before": h0,
+                                           "hash_now": hash(x), "hash_fresh": hash(y)})
+            return False
+    except Exception as exc:  # noqa
+        part.violation("fresh", case, {"exception": repr(exc)})
+        return False
+    return True
+
+
+def check_fresh_value(part, v):
+    """One mesh value: objects built FROM mutable containers (which are then damaged) and the
+    mutable containers handed OUT by the objects (damaged, then asked for again)."""
+    L = lib()
+    p, sh = v
+    n = len(p)
+    cells = sorted(sh)
+    desc = mesh_value_desc(v)
+    twin = lambda: L.MeshPatt(L.Perm(p), list(cells))     # noqa
+    evals = 0
+    # --- handed in
+    for cname, mk in (("list", lambda: list(cells)), ("set", lambda: set(cells)),
+                      ("dict keys", lambda: dict.fromkeys(cells)),
+                      ("list for Perm", None)):
+        try:
+            if mk is None:
+                plist = list(p)
+                x = L.MeshPatt(L.Perm(plist), cells)
+                h0 = hash(x)
+                _damage(plist)
+            else:
+                c = mk()
+                x = L.MeshPatt(L.Perm(p), c if cname != "dict keys" else c.keys())
+                h0 = hash(x)
+                _damage(c)
+        except Exception as exc:  # noqa
+            part.violation("fresh", {"what": "built from " + cname, "value": desc},
+                           {"exception": repr(exc)})
+            continue
+        _stable(part, "built from a %s that is edited afterwards" % cname, desc, x, twin, h0)
+        evals += 1
+    # bivincular-type spellings: adjacency lists/sets handed in, requirement lists handed out
+    subsets = [list(a) for r in range(n + 2) for a in itertools.combinations(range(n + 1), r)]
+    for a in subsets:
+        for b in subsets:
+            if F.sem(["biv", list(p), a, b])[1] != sh:
+                continue
+            spellings = [("biv", L.Biv, [a, b])]
+            if not b:
+                spellings.append(("vinc", L.Vinc, [a]))
+            if not a:
+                spellings.append(("covinc", L.Covinc, [b]))
+            for sname, ctor, args in spellings:
+                for cname, conv in (("list", list), ("set", set)):
+                    try:
+                        given = [conv(t) for t in args]
+                        x = ctor(L.Perm(p), *given)
+                        h0 = hash(x)
+                        for g in given:
+                            _damage(g)
+                        tw = lambda: ctor(L.Perm(p), *[list(t) for t in args])    # noqa
+                        _stable(part, "%s built from %ss that are edited afterwards"
+                                % (sname, cname), desc, x, tw, h0,
+                                {"adjacent": [a, b]})
+                        evals += 1
+                        # handed out: the requirement lists
+                        want = (sorted(set(i for i in range(n + 1)
+                                           if all((i, r) in sh for r in range(n + 1)))),
+                                sorted(set(r for r in range(n + 1)
+                                           if all((i, r) in sh for i in range(n + 1)))))
+                        for rnd in range(2):
+                            got = x.get_adjacent_requirements()
+                            if (list(got[0]), list(got[1])) != want:
+                                part.violation("fresh", {"what": "get_adjacent_requirements, "
+                                                         "call %d (results of earlier calls were "
+                                                         "edited)" % (rnd + 1), "value": desc,
+                                                         "adjacent": [a, b]},
+                                               {"expected": want, "got": repr(got)})
+                                break
+                            for g in got:
+                                if isinstance(g, (list, set, dict)):
+                                    _damage(g)
+                            y = tw()
+                            got2 = y.get_adjacent_requirements()
+                            if (list(got2[0]), list(got2[1])) != want:
+                                part.violation("fresh", {"what": "get_adjacent_requirements of "
+                                                         "a new equal object after the result "
+                                                         "was edited", "value": desc,
+                                                         "adjacent": [a, b]},
+                                               {"expected": want, "got": repr(got2)})
+                                break
+                        _stable(part, "%s after its requirement lists were edited" % sname,
+                                desc, x, tw, h0, {"adjacent": [a, b]})
+                        evals += 2
+                    except Exception as exc:  # noqa
+                        part.violation("fresh", {"what": sname, "value": desc,
+                                                 "adjacent": [a, b]}, {"exception": repr(exc)})
+    # --- exposed attributes: if one of them is a mutable container, edit it
+    try:
+        x = L.MeshPatt(L.Perm(p), cells)
+        h0 = hash(x)
+        for attr in ("shading", "pattern"):
+            c = getattr(x, attr, None)
+            if isinstance(c, (list, set, dict)):
+                part.bump("mutable_attribute_exposed_" + attr)
+                _damage(c)
+        srt = sorted(x.shading)
+        _damage(srt)
+        b = L.MeshBasis(x)
+        hb = hash(b)
+        lst = list(b)
+        _damage(lst)
+        _stable(part, "after editing whatever mutable containers the object exposes", desc, x,
+                twin, h0)
+        _stable(part, "one-element MeshBasis after list(basis) was edited", desc, b,
+                lambda: L.MeshBasis(twin()), hb)
+        evals += 2
+    except Exception as exc:  # noqa
+        part.violation("fresh", {"what": "exposed attributes", "value": desc},
+                       {"exception": repr(exc)})
+    return evals
+
+
+def shard_fresh(shard):
+    quick, lo, hi = shard
+    part = Partial()
+    for v in route_values(quick)[lo:hi]:
+        n = check_fresh_value(part, v)
+        part.add(n, n)
+    return part
+
+
+# --------------------------------------------------------------------------------------------
+# ABORT: an exception out of nowhere inside hash / == / < / sorted / set / basis construction
+# --------------------------------------------------------------------------------------------
+
+class _Abort(BaseException):
+    pass
+
+
+def _run_with_abort(fn, k, root):
+    import sys
+    seen = [0]
+
+    def tracer(frame, event, arg):
+        if event == "call" and frame.f_code.co_filename.startswith(root):
+            seen[0] += 1
+            if seen[0] == k:
+                sys.settrace(None)
+                raise _Abort()
+        return None
+
+    sys.settrace(tracer)
+    try:
+        fn()
+        return True, seen[0]
+    except _Abort:
+        return False, seen[0]
+    finally:
+        sys.settrace(None)
+
+
+def _in_child(fn):
+    """fn() in a forked child of its own (so that no memo filled by an earlier injection's
+    read-back - known to this harness or not - can shield a later injection)."""
+    import json
+    import os
+    r, w = os.pipe()
+    pid = os.fork()
+    if pid == 0:
+        code = 0
+        try:
+            os.close(r)
+            try:
+                out = fn()
+            except BaseException as exc:  # noqa
+                out = {"child_exception": repr(exc)}
+            with os.fdopen(w, "w") as fh:
+                fh.write(json.dumps(out))
+        except BaseException:  # noqa
+            code = 1
+        finally:
+            os._exit(code)
+    os.close(w)
+    with os.fdopen(r) as fh:
+        data = fh.read()
+    os.waitpid(pid, 0)
+    try:
+        return json.loads(data)
+    except ValueError:
+        return {"child_exception": "no result from the child process (it died)"}
+
+
+ABORT_FAMILY = [
+    [["biv", [0, 1], [1], [1]], "plain"],
+    [["vinc", [1, 0], [1]], "plain"],
+    [["covinc", [0, 1], [0, 2]], "rev"],
+    [["mesh", [0, 1], [[1, 1]]], "plain"],
+    [["mesh", [0, 1], [[1, 0], [1, 1], [1, 2]]], "fset"],     # == the next one
+    [["vinc", [0, 1], [1]], "plain"],
+    [["mesh", [0], [[0, 1], [1, 0]]], "rev"],
+    [["biv", [], [0], [0]], "plain"],
+    [["perm", [1, 0, 2]], "plain"],
+    [["perm", [0, 2, 1]], "list"],
+    [["perm", []], "plain"],
+    [["perm", [0, 1, 2, 3]], "gen"],
+    [["basis", [["perm", [0, 1, 2]], ["perm", [1, 0]]]], "plain"],
+    [["meshbasis", [["vinc", [0, 1], [1]], ["mesh", [1, 0], [[1, 1]]]]], "rev"],
+]
+
+
+def abort_ops():
+    """Every hash, every ==, <, <=, >, >= within the mesh-type and within the permutation
+    entries, sorted()/min()/set()/dict of each family, construction of a Basis / MeshBasis from
+    the family's patterns."""
+    fam = [family(key(e)) for e in ABORT_FAMILY]
+    ops = [["hash", i] for i in range(len(ABORT_FAMILY))]
+    for i in range(len(ABORT_FAMILY)):
+        for j in range(len(ABORT_FAMILY)):
+            if fam[i] == fam[j]:
+                ops.append(["eq", i, j])
+                if fam[i] in ("P", "M"):
+                    for o in OPS:
+                        ops.append([o, i, j])
+    for f in ("M", "P"):
+        ops += [["sorted", f], ["sorted-reversed-input", f], ["min-max", f], ["set", f],
+                ["dict", f], ["list.sort", f]]
+    ops += [["Basis"], ["MeshBasis"], ["MeshBasis-of-perms"]]
+    return ops
+
+
+def abort_attempt(op, k):
+    import os
+    import signal
+    import sys
+    from ..core import REPO
+    L = lib()
+    root = os.path.join(os.path.abspath(REPO), "permuta") + os.sep
+    objs = [build(e) for e in ABORT_FAMILY]
+    keys = [key(e) for e in ABORT_FAMILY]
+    fam = [family(kk) for kk in keys]
+    idx = {f: [i for i in range(len(objs)) if fam[i] == f] for f in ("M", "P", "BB")}
+    kind = op[0]
+    if kind == "hash":
+        fn = lambda: hash(objs[op[1]])                                          # noqa
+    elif kind == "eq":
+        fn = lambda: objs[op[1]] == objs[op[2]]                                 # noqa
+    elif kind in OPS:
+        x, y = objs[op[1]], objs[op[2]]
+        fn = {"lt": lambda: x < y, "le": lambda: x <= y, "gt": lambda: x > y,
+              "ge": lambda: x >= y}[kind]
+    elif kind == "sorted":
+        fn = lambda: sorted(objs[i] for i in idx[op[1]])                        # noqa
+    elif kind == "sorted-reversed-input":
+        fn = lambda: sorted([objs[i] for i in idx[op[1]]][::-1], reverse=True)  # noqa
+    elif kind == "list.sort":
+        fn = lambda: [objs[i] for i in idx[op[1]]].sort()                       # noqa
+    elif kind == "min-max":
+        fn = lambda: (min(objs[i] for i in idx[op[1]]), max(objs[i] for i in idx[op[1]]))  # noqa
+    elif kind == "set":
+        fn = lambda: set(objs[i] for i in idx[op[1]])                           # noqa
+    elif kind == "dict":
+        fn = lambda: {objs[i]: i for i in idx[op[1]]}[objs[idx[op[1]][0]]]      # noqa
+    elif kind == "Basis":
+        fn = lambda: L.Basis(*[objs[i] for i in idx["P"] if len(objs[i])])      # noqa
+    elif kind == "MeshBasis":
+        fn = lambda: L.MeshBasis(*[objs[i] for i in idx["M"]])                  # noqa
+    else:
+        fn = lambda: L.MeshBasis(*[objs[i] for i in idx["P"] if len(objs[i])])  # noqa
+
+    def on_alarm(signum, frame):
+        raise TimeoutError("read-back did not finish within 20 s")
+
+    signal.signal(signal.SIGALRM, on_alarm)
+    sys.unraisablehook = lambda unraisable: None
+    finished, total = _run_with_abort(fn, k, root)
+    part = Partial()
+    signal.alarm(20)
+    try:
+        fresh = [build(e) for e in ABORT_FAMILY]
+        n = len(objs)
+        for i in range(n):
+            for j in range(n):
+                if fam[i] == fam[j]:
+                    check_pair(part, ABORT_FAMILY[i], ABORT_FAMILY[j], objs[i], objs[j])
+                    check_pair(part, ABORT_FAMILY[i], ABORT_FAMILY[j], objs[i], fresh[j])
+        for f in ("M", "P"):
+            a = sorted(objs[i] for i in idx[f])
+            b = sorted([fresh[i] for i in idx[f]][::-1])
+            pos = {id(o): i for i, o in enumerate(objs)}
+            posf = {id(o): i for i, o in enumerate(fresh)}
+            ka = [keys[pos[id(o)]] for o in a]
+            kb = [keys[posf[id(o)]] for o in b]
+            nondecr = all(not (a[t + 1] < a[t]) for t in range(len(a) - 1))
+            if ka != kb or not nondecr or len(set(objs[i] for i in idx[f])) != len(set(ka)):
+                part.violation("sorted-after-abort", {"family": f},
+                               {"same_objects": [repr(x) for x in ka],
+                                "fresh_objects": [repr(x) for x in kb], "nondecreasing": nondecr})
+            if f == "P" and [t[1] for t in ka] != sorted((t[1] for t in ka),
+                                                         key=lambda t: (len(t), t)):
+                part.violation("sorted-after-abort", {"family": f}, {"order": [repr(x) for x in ka]})
+        b1 = L.Basis(*[objs[i] for i in idx["P"] if len(objs[i])])
+        b2 = L.Basis(*[fresh[i] for i in idx["P"] if len(fresh[i])][::-1])
+        m1 = L.MeshBasis(*[objs[i] for i in idx["M"]])
+        m2 = L.MeshBasis(*[fresh[i] for i in idx["M"]][::-1])
+        if not (b1 == b2 and hash(b1) == hash(b2) and m1 == m2 and hash(m1) == hash(m2)):
+            part.violation("basis-after-abort", {}, {"Basis": [repr(b1), repr(b2)],
+                                                     "MeshBasis": [repr(m1), repr(m2)]})
+    except TimeoutError as exc:
+        part.violation("hang", {}, {"hang": str(exc)})
+    except Exception as exc:  # noqa
+        part.violation("read-back", {}, {"exception_in_read_back": repr(exc)})
+    signal.alarm(0)
+    return {"total": total, "finished": finished,
+            "problems": [{"law": v["sub"], "case": v["case"], "detail": v["detail"]}
+                         for v in part.viols[:3]]}
+
+
+def shard_abort(shard):
+    ops = shard[0]
+    only_k = shard[1] if len(shard) > 1 else None
+    part = Partial()
+    for op in ops:
+        res = _in_child(lambda: abort_attempt(op, None))
+        if "total" not in res or res["problems"]:
+            part.violation("abort", {"op": op, "abort_at_call": None}, res)
+            continue
+        total = res["total"]
+        for k in ([only_k] if only_k else range(1, total + 1)):
+            res = _in_child(lambda: abort_attempt(op, k))
+            case = {"op": op, "abort_at_call": k}
+            if "child_exception" in res:
+                part.violation("abort", case, res)
+            elif res["problems"]:
+                part.violation("abort", case, {"aborted_before_completion": not res["finished"],
+                                               "problems": res["problems"]})
+            part.add(1, 0 if res.get("finished") else 1)
+        part.bump("abort_points", total)
+        part.bump("abort_operations")
+    return part
+
+
+# --------------------------------------------------------------------------------------------
 # E2: allocation histories between hash computations
 # --------------------------------------------------------------------------------------------
 
@@ -1690,6 +2077,34 @@ def run(ctx, only=None):
                       "length (<= 300: containment search recurses once per pattern entry) "
                       "from 7 arrangements"}
         ctx.section("scale", entries=len(SU), sizes=list(sizes), evaluations=ctx.evals - e0)
+    if want("fresh"):
+        e0 = ctx.evals
+        vals = route_values(quick)
+        per = max(1, len(vals) // 64)
+        ctx.pmap(shard_fresh, [(quick, lo, min(len(vals), lo + per))
+                               for lo in range(0, len(vals), per)])
+        ctx.bounds["fresh"] = {"mesh_values": len(vals),
+                               "handed_in": "shading as list / set / dict, entries as list, "
+                                            "adjacency lists / sets of every bivincular-type "
+                                            "spelling: edited after construction",
+                               "handed_out": "get_adjacent_requirements() lists edited and asked "
+                                             "again (same object, new equal object); sorted"
+                                             "(shading), list(basis); any exposed attribute "
+                                             "that is a mutable container"}
+        ctx.section("fresh", mesh_values=len(vals), evaluations=ctx.evals - e0)
+    if want("abort"):
+        e0 = ctx.evals
+        ops = abort_ops()
+        nsh = 64
+        ctx.pmap(shard_abort, [(ops[i::nsh],) for i in range(nsh) if ops[i::nsh]])
+        ctx.bounds["abort"] = {"objects": ABORT_FAMILY, "operations": len(ops),
+                               "injection_points": ctx.counters.get("abort_points", 0),
+                               "bound": "one injection per run, every k; every injection in a "
+                                        "forked process of its own; read-back = all pair laws on "
+                                        "the same and on fresh objects, sorted(), bases"}
+        ctx.section("abort", operations=len(ops),
+                    injection_points=ctx.counters.get("abort_points", 0),
+                    evaluations=ctx.evals - e0)
     if want("history"):
         # depth (operations) from the fresh state / after all three objects were hashed once
         depths = [(4, 3) if quick else (5, 4)] * len(CONFIGS)
@@ -1780,6 +2195,11 @@ def replay(ctx, rec):
                 ctx.violation("perm_order", case, {"got": "differs"})
     elif sub == "build":
         try_build(ctx, case["entry"])
+    elif sub == "fresh":
+        v = (tuple(case["value"][0]), frozenset(tuple(c) for c in case["value"][1]))
+        check_fresh_value(ctx, v)
+    elif sub == "abort":
+        ctx.merge(shard_abort(([case["op"]], case["abort_at_call"])))
     elif sub.startswith("scale:"):
         check_scale_sorted(ctx, case["quick"])
     elif sub.startswith("routes:"):
